@@ -1,14 +1,207 @@
 import PegVerif.Props.C01
+import PegVerif.Proofs.RefineNoast
+import PegVerif.Proofs.LinkNoast
 /-
-  C07 — property theorems.  The refinement theorem R and its corollaries are added here as they are
-  proved; until then this property rests on C01's semantic facts plus the ties named in MANIFEST.json.
+  C07 — parsers generated with `-noast` accept the same language as the default ones and run the
+  actions inline.
+
+  RN (`Proofs/RefineNoast*.lean`) is the refinement theorem for the `-noast` emission: for every
+  derivation of the PEG semantics the emitted code does the same, and the machine's trace / `text`
+  are the fold `reachTrace` over the *events* of the derivation — every completed token-producing
+  node in completion order, including those inside alternatives that are backtracked over later
+  and inside lookahead: a completed capture sets `text`, a completed action rule runs its code with
+  the current `text`.
+
+  State-change statements `!{…}` also append to the machine's trace but are not events of the
+  semantics.  The general statements compare the part of the trace selected by `K.keep` (action
+  codes kept, statement codes not: `Expr.okN`); for grammars without `!{…}` nodes (`Kall`, where
+  `okN` forbids them) the whole trace is compared.
 -/
 namespace PegVerif
+open Noast
 
 theorem C07_semantics_deterministic {G ρ inp e p r1 ev1 r2 ev2}
     (h1 : Eval G ρ inp e p r1 ev1) (h2 : Eval G ρ inp e p r2 ev2) : r1 = r2 ∧ ev1 = ev2 :=
   Eval_det h1 h2
 
+section
+variable {K : NKit} {P PN : Program} {cfg cfgN : Cfg} {env envN : CEnv} {G : Grammar} {inp : List Sym}
+
+/-! ### The properties -/
+
+/-- **C07** (totality): from every state positioned inside the input on which the semantics is
+    defined, the emitted `-noast` function of rule `n` has a run. -/
+theorem C07_runs (hW : WorldN K PN cfgN envN G inp) {n cr p res evs s}
+    (hfind : PN.find n = some cr) (hev : Eval G cfgN.rho inp (.name n) p res evs)
+    (hpos : s.pos = p) (hple : p ≤ inp.length) :
+    ∃ o s', Exec PN cfgN inp cr 0 s Frame.empty (o, s') :=
+  let ⟨o, s', h, _⟩ := RN_rule hW hfind hev hpos hple
+  ⟨o, s', h⟩
+
+/-- **C07** (verdict): every run of the emitted `-noast` function of rule `n` returns true exactly
+    when the PEG semantics succeeds, false exactly when it fails, never panics, and ends at the
+    position the semantics prescribes (the entry position on failure). -/
+theorem C07_verdict (hW : WorldN K PN cfgN envN G inp) {n cr p res evs s o s'}
+    (hfind : PN.find n = some cr) (hev : Eval G cfgN.rho inp (.name n) p res evs)
+    (hpos : s.pos = p) (hple : p ≤ inp.length)
+    (hrun : Exec PN cfgN inp cr 0 s Frame.empty (o, s')) :
+    o ≠ .panic ∧ (o = .ret true ↔ ∃ p' f, res = .ok p' f) ∧ (o = .ret false ↔ res = .fail) ∧
+    (∀ p' f, res = .ok p' f → s'.pos = p') ∧ (res = .fail → s'.pos = p) := by
+  have h := RN_rule_all hW hfind hev hpos hple hrun
+  cases res with
+  | ok p' f =>
+    obtain ⟨h1, h2, _⟩ := h
+    subst h1
+    refine ⟨by simp, by simp, by simp, ?_, by simp⟩
+    intro p'' f' e; cases e; exact h2
+  | fail =>
+    obtain ⟨h1, h2, _⟩ := h
+    subst h1
+    exact ⟨by simp, by simp, by simp, by simp, fun _ => h2⟩
+
+/-- **C07** (inline actions, general form): after every run — successful or not — the compared
+    part of the trace is the initial one followed by exactly the actions `reachTrace` prescribes
+    for the events of the derivation, each with the text of the capture most recently completed
+    when it was reached, whether or not the branch it sits in was backtracked over later; `text`
+    is what `reachTrace` leaves; the token buffer and the memo table are untouched, and
+    `maxToken` is folded over the events that are not captures. -/
+theorem C07_inline_actions_filtered (hW : WorldN K PN cfgN envN G inp) {n cr p res evs s o s'}
+    (hfind : PN.find n = some cr) (hev : Eval G cfgN.rho inp (.name n) p res evs)
+    (hpos : s.pos = p) (hple : p ≤ inp.length)
+    (hrun : Exec PN cfgN inp cr 0 s Frame.empty (o, s')) :
+    s'.trace.filter (fun x => K.keep x.1) =
+      s.trace.filter (fun x => K.keep x.1) ++ (reachTrace K.codeOf inp evs s.text).1 ∧
+    s'.text = (reachTrace K.codeOf inp evs s.text).2 ∧
+    s'.tree = s.tree ∧ s'.memo = s.memo ∧ s'.maxTok = (noCap evs).foldl updTok s.maxTok := by
+  have h := RN_rule_all hW hfind hev hpos hple hrun
+  have hE : StEffN K inp s s' evs := by
+    cases res with
+    | ok p' f => exact h.2.2
+    | fail => exact h.2.2
+  have hobs := hE.obs
+  rw [obsN, obsN, foldl_inlineStep] at hobs
+  have h1 := congrArg Prod.fst hobs
+  have h2 := congrArg Prod.snd hobs
+  exact ⟨h1, h2, hE.tree, hE.memo, hE.maxTok⟩
+
+/-- **C07** (inline actions) for grammars without state-change statements `!{…}` (`Kall`: the
+    fragment predicate `okN (Kall G)` forbids them): the whole trace. -/
+theorem C07_inline_actions (hW : WorldN (Kall G) PN cfgN envN G inp) {n cr p res evs s o s'}
+    (hfind : PN.find n = some cr) (hev : Eval G cfgN.rho inp (.name n) p res evs)
+    (hpos : s.pos = p) (hple : p ≤ inp.length)
+    (hrun : Exec PN cfgN inp cr 0 s Frame.empty (o, s')) :
+    s'.trace = s.trace ++ (reachTrace (actionCodeOf G) inp evs s.text).1 ∧
+    s'.text = (reachTrace (actionCodeOf G) inp evs s.text).2 := by
+  have h := C07_inline_actions_filtered hW hfind hev hpos hple hrun
+  have hf : ∀ l : List (String × List Sym), l.filter (fun x => (Kall G).keep x.1) = l := by
+    intro l; induction l <;> simp_all [Kall]
+  rw [hf, hf] at h
+  exact ⟨h.1, h.2.1⟩
+
+/-- **C07** (same language): a default (AST) parser and a `-noast` parser generated for the same
+    grammar, run on the same entry rule, input and start position, give the same verdict and end
+    at the same position — both are those of the PEG semantics. -/
+theorem C07_same_language_as_default (hWA : World P cfg env G inp) (hWN : WorldN K PN cfgN envN G inp)
+    (hrho : cfg.rho = cfgN.rho) {n crA crN p res evs sA sN oA oN sA' sN'}
+    (hfindA : P.find n = some crA) (hfindN : PN.find n = some crN)
+    (hev : Eval G cfg.rho inp (.name n) p res evs)
+    (hposA : sA.pos = p) (hposN : sN.pos = p) (hple : p ≤ inp.length)
+    (hlen : sA.ti ≤ sA.tree.length) (hm : MemoOK P G cfg.rho inp sA.memo sA.maxTok.e)
+    (hrunA : Exec P cfg inp crA 0 sA Frame.empty (oA, sA'))
+    (hrunN : Exec PN cfgN inp crN 0 sN Frame.empty (oN, sN')) :
+    oA = oN ∧ sA'.pos = sN'.pos := by
+  have a := R_rule_all hWA hfindA hev hposA hple hlen hm hrunA
+  have b := RN_rule_all hWN hfindN (hrho ▸ hev) hposN hple hrunN
+  cases res with
+  | ok p' f =>
+    obtain ⟨a1, a2, _⟩ := a
+    obtain ⟨b1, b2, _⟩ := b
+    exact ⟨by rw [a1, b1], by rw [a2, b2]⟩
+  | fail =>
+    obtain ⟨a1, a2, _⟩ := a
+    obtain ⟨b1, b2, _⟩ := b
+    exact ⟨by rw [a1, b1], by rw [a2, b2]⟩
+
+/-- **C07 for the generator itself** (`-noast`, without `-inline`/`-switch`): `WorldN` is discharged
+    for the program the MODEL GENERATOR emits (`compileAll_worldN`, `alwaysSucceeds_sound`) for every
+    grammar that passes the decidable checks `GrammarOK`, `GrammarOKN` and is `plain`; the T-emit
+    tie says the real generator emits this very program.  Every run from a fresh parser gives the
+    verdict and end position of the semantics and the trace/`text` of `reachTrace`. -/
+theorem C07_generated_parser (G : Grammar) (o : Opts) (cfg : Cfg) (inp : List Sym)
+    (hinl : o.inline = false) (hsw : o.switch = false) (hast : o.ast = false) (hcfg : cfg.ast = false)
+    (hinp : ∀ c ∈ inp, c ≠ END) (hG : GrammarOK G = true) (hN : GrammarOKN (Kall G) G = true)
+    (hplain : G.plain)
+    {n cr res evs out s'} (hfind : (compileAll o G).find n = some cr)
+    (hev : Eval G cfg.rho inp (.name n) 0 res evs)
+    (hrun : Exec (compileAll o G) cfg inp cr 0 St.init Frame.empty (out, s')) :
+    (out = .ret true ↔ ∃ p' f, res = .ok p' f) ∧ (∀ p' f, res = .ok p' f → s'.pos = p') ∧
+    (out = .ret false ↔ res = .fail) ∧ out ≠ .panic ∧
+    s'.trace = (reachTrace (actionCodeOf G) inp evs []).1 ∧
+    s'.text = (reachTrace (actionCodeOf G) inp evs []).2 := by
+  have hW := compileAll_worldN (K := Kall G) hsw hinl hast hcfg hinp hG hN
+    (fun _ h => alwaysSucceeds_sound hplain h)
+  have hv := C07_verdict hW hfind hev rfl (Nat.zero_le _) hrun
+  have ht := C07_inline_actions hW hfind hev rfl (Nat.zero_le _) hrun
+  simp only [St.init, List.nil_append] at ht
+  exact ⟨hv.2.1, hv.2.2.2.1, hv.2.2.1, hv.1, ht.1, ht.2⟩
+
+end
+
+/-! ### Non-vacuity
+
+    `S <- <'a'> {A0} 'b' / 'a' 'c'` on "ac": the first alternative completes the capture and reaches
+    the action, then fails at 'b' and is backtracked over — the action still shows in the spec,
+    with the text "a"; and the `-noast` program the model generator emits for this grammar, run by
+    the executable machine, leaves exactly that trace. -/
+
+namespace C07Example
+
+def G : Grammar := ⟨[
+  ⟨"S", 0, .ipush (.alt [.seq [.push (.chr 97) "PegText", .name "Action0", .chr 98],
+                          .seq [.chr 97, .chr 99]]) "S"⟩,
+  ⟨"Action0", 1, .ipush (.act "A0") "Action0"⟩]⟩
+
+def inp : List Sym := [97, 99]
+
+def evs : List Token := [⟨"PegText", 0, 1⟩, ⟨"Action0", 1, 1⟩, ⟨"S", 0, 2⟩]
+
+def ρ : String → Nat → Bool := fun _ _ => true
+
+/-- The semantics: success at 2, with the capture and the action of the FAILED first alternative
+    among the events. -/
+example : (evalF G ρ inp 20 (.name "S") 0).map (fun x => (match x.1 with | .ok p _ => some p | .fail => none, x.2))
+    = some (some 2, evs) := by decide
+
+example : ∃ f, Eval G ρ inp (.name "S") 0 (.ok 2 f) evs := ⟨_, evalF_sound 20 _ _ _ _ (by rfl)⟩
+
+example : actionCodeOf G "Action0" = some "A0" := by decide
+
+/-- The spec: the action of the failed first alternative ran, with the text of the capture. -/
+example : reachTrace (actionCodeOf G) inp evs [] = ([("A0", [97])], [97]) := by decide
+
+/-- The hypotheses of `C07_generated_parser` are satisfiable. -/
+example : GrammarOK G = true ∧ GrammarOKN (Kall G) G = true ∧ G.plain ∧
+    ((compileAll { ast := false } G).find "S").isSome = true :=
+  ⟨by decide, by decide, Grammar.plain_of_all (by decide), by decide⟩
+
+/-- The emitted `-noast` program on the executable machine: returns true at position 2 with the
+    trace and `text` of the spec (and an untouched token buffer). -/
+example : (((compileAll { ast := false } G).find "S").bind
+      (fun c => execF (compileAll { ast := false } G) ⟨false, true, ρ⟩ inp 100 c 0 St.init Frame.empty)).map
+      (fun r => (r.1, r.2.pos, r.2.trace, r.2.text, r.2.tree)) =
+    some (.ret true, 2, [("A0", [97])], [97], []) := by rfl
+
+end C07Example
+
 end PegVerif
 
 #print axioms PegVerif.C07_semantics_deterministic
+#print axioms PegVerif.C07_runs
+#print axioms PegVerif.C07_verdict
+#print axioms PegVerif.C07_inline_actions_filtered
+#print axioms PegVerif.C07_inline_actions
+#print axioms PegVerif.C07_same_language_as_default
+#print axioms PegVerif.RN_all
+#print axioms PegVerif.RN_rule_all
+#print axioms PegVerif.C07_generated_parser
+#print axioms PegVerif.compileAll_worldN
